@@ -5,34 +5,50 @@ from .. import common as C
 from .. import e2e
 
 MANIFEST = dict(
-    text="Lean 4 theorems over executable models of http_response_write_prepare (framing decision table), "
-         "h1_send_headers (Connection/keep-alive, serialisation), the http_chunk.c encoder, "
-         "buffer_append_string_encoded with the extracted encoded_chars_* tables, and of the socket writer "
-         "(network_write.c + chunkqueue_mark_written) under arbitrary write-result schedules: the chosen "
-         "framing always delimits exactly the intended body (Content-Length = bytes sent, chunked round "
-         "trip through the request-side decoder model, close-delimited => keep-alive off, no body for "
-         "HEAD/1xx/204/205/304), the bytes accepted by the socket are always a prefix of and finally equal "
-         "to the queued message, no CR/LF/NUL can come out of the URL encoders; models tied to the C by "
-         "differential runs (in-process harness with scripted write/writev/sendfile faults, exhaustive "
-         "decision table) and by an end-to-end stream against the real server (static files of every "
-         "boundary size x network backend x stream-response-body x HTTP version x client read pace, "
-         "pipelines, HEAD/304/404/ranges/directory redirects with CR LF tricks, CGI streaming, and the same "
-         "server with write/writev/sendfile made to return short/EAGAIN/EINTR by an LD_PRELOAD shim), every "
-         "response parsed by an independent strict RFC 9112 parser and compared byte-for-byte",
-    note="trusted: Lean kernel (+propext, Quot.sound, Classical.choice), hand-written models validated by "
-         "the h_h1resp correspondence and the end-to-end stream, tables/constants regenerated from "
-         "buffer.c/http_kv.c/network_write.c/chunk.h each run; kernel behaviour of real sendfile/writev "
-         "beyond their return values, TLS modules, Range processing (C15) and backend pass-through of "
-         "chunked bodies/trailers (C10) are outside the model",
-    tech="Lean 4 proof over hand-written model + differential correspondence (in-process C harness with "
-         "fault schedules, end-to-end real server)",
+    text="Lean 4 theorems over executable models of http_response_write_prepare (framing decision), "
+         "h1_send_headers (keep-alive/Connection, serialisation), the response header store, the http_chunk.c "
+         "encoder, buffer_append_string_encoded (extracted encoded_chars_* tables) and the socket writer "
+         "(network_write.c + chunkqueue_mark_written) under arbitrary write-result schedules. PROVED over the model, "
+         "for every well-behaved response descriptor: a client written from RFC 9112 (wireDecode: reads the "
+         "header-section BYTES, every field line, sections 6.3/7.1, independent chunked decoder) recovers status "
+         "and exactly the intended body and is left with exactly the next response's bytes, or the message is "
+         "close-delimited with keep-alive off (c04_wire_decode_exact; list-level c04_framing_sound); the header "
+         "store never holds two entries of one name (c04_store_names_unique); HEAD/204/205/304 carry no body and "
+         "no-length-no-chunking implies the keep-alive flag is cleared, both unconditionally; chunked round trip "
+         "through an independent decoder; a short read that would falsify an announced chunk length is "
+         "reported as an error; the bytes accepted by the socket are always a prefix of the queued message for "
+         "EVERY schedule, retryable results (EINTR/EAGAIN/short) never abort, a cooperative socket drains the "
+         "queue (progress), composed with the response message (c04_response_reaches_socket); URL/HTML encoders "
+         "emit no CR/LF/NUL, directory-redirect Location and decoded paths are clean; the header section splits "
+         "into exactly its CR-terminated lines, also with repeated fields. TESTED ONLY (correspondence / "
+         "end-to-end, not proved): that the C equals the models (in-process harness with scripted "
+         "write/writev/sendfile faults, exhaustive decision table, fault-injected short reads); responses once "
+         "per request and in request order, the connection really being closed, streaming modes, client read "
+         "pace, static files of every boundary size x backend, error handlers, CGI producers with declared "
+         "Content-Length and dribbling write schedules, and an LD_PRELOAD shim making the real server's socket "
+         "writes short/EAGAIN/EINTR - every response parsed by an independent strict parser and compared "
+         "byte-for-byte",
+    note="claimed partial. trusted: Lean kernel (+propext, Quot.sound, Classical.choice; decide +kernel on tables), "
+         "hand-written models as far as the h_h1resp correspondence and the end-to-end stream reach, "
+         "tables/constants regenerated from buffer.c/http_kv.c/network_write.c/chunk.h each run. Outside the "
+         "proofs: order/count of responses and connection close (connection state machine: end-to-end only); "
+         "stream-response-body and read pace are not model parameters; which module-generated header values "
+         "are request-derived beyond the directory redirect (mod_redirect/rewrite: C20; others not "
+         "enumerated); Range rewriting (C15), backend pass-through of chunking/trailers and truncated backend "
+         "bodies (C10), filter plugins between the status switch and the framing choice; files truncated while "
+         "queued; kernel behaviour of write/writev/sendfile beyond return values; TLS; mmap write path (not "
+         "compiled on this platform)",
+    tech="Lean 4 proof over hand-written model (incl. an RFC 9112 wire-level reference decoder) + differential "
+         "correspondence (in-process C harness with fault schedules) + end-to-end real server with fault shim",
     ref="6/C04")
 
 LEVEL = "proof"
-EXPLANATION = ("claimed partial: proof over the models of the framing decision, header serialisation, chunk encoder, "
-               "URL encoders and the socket writer for every descriptor / schedule; what the kernel does inside "
-               "write/writev/sendfile beyond its return value, TLS modules, and the order of responses on a connection "
-               "(connection state machine) are covered by the end-to-end stream only")
+EXPLANATION = ("claimed partial: clauses proved over the model = message well-formed and self-delimiting at byte level, "
+               "declared length true, chunked framing, no body for HEAD/204/205/304 and 1xx, no-length => keep-alive flag "
+               "cleared, partial/interrupted writes exact + progress, no CR/LF from the URL encoders / directory redirect; "
+               "clauses covered by correspondence or end-to-end only = model equals C, once per request in request order, "
+               "connection actually closed, static-file body for every size/backend/streaming mode/read pace, error "
+               "handlers, backend producers; outside = other request-derived header sinks, C10/C15 territory, TLS, kernel")
 
 DATE_T = 784111777
 DATE_S = b"Sun, 06 Nov 1994 08:49:37 GMT"
@@ -112,7 +128,7 @@ def gen_nw(ctx):
     lines = []
     SZ = [0, 1, 2, 3, 5, 100, 1023, 4095, 4096, 4097, 8191, 8192, 16383, 16384, 16385, 20000, 32767, 32768,
           32769, 65535, 65536, 65537]
-    RES = ["A", "I", "P", "R", "V", "X"]
+    RES = ["A", "I", "P", "R", "V", "X", "N"]
 
     def rchunk(small):
         k = rng.random()
@@ -168,7 +184,7 @@ def gen_nw(ctx):
         sc += [str(1 << 30)] * rng.choice([0, 3, 60])
         lines.append("nw %s %d %s %s" % (rng.choice("ws"), rng.choice([262144, 262144, 5, 16384]), ",".join(sc), " ".join(q)))
     # exhaustive: all schedules of length <= 3 (quick) / 4 over a small alphabet on a 3-chunk message
-    alpha = ["0", "1", "3", "4", "6", "100", "A", "I", "V", "P", "X"]
+    alpha = ["0", "1", "3", "4", "6", "100", "A", "I", "V", "P", "N"]
     depth = 3 if ctx.quick else 4
     q = ["m1.3.0", "f2.6.1.5", "m3.2.0"]
     for be in "ws":
@@ -222,7 +238,8 @@ def oracle_prep(t, out):
     if names.count(b"content-length") > 1:
         return None
     is_head = d["meth"] == "H"
-    errdoc = 400 <= status < 600 and (not (flags & 1) or (flags & 2))
+    saved = 65535 if flags & 128 else (404 if flags & 256 else 0)
+    errdoc = 400 <= status < 600 and ((saved < 65535) if not (flags & 1) else bool(flags & 2) and not saved)
     bodiless = is_head or status in (204, 205, 304)
     streamed = not d["fin"] and not bodiless and not errdoc
     intended = b"" if bodiless else (None if errdoc else d["queued"] + (b"".join(d["pieces"]) if streamed else b""))
@@ -304,7 +321,8 @@ def gen_prep(ctx):
              [("i", "Set-Cookie", "a=1"), ("i", "set-cookie", "b=2"), ("s", "Content-Encoding", "gzip")],
              [("s", "Content-Length", ""), ("s", "X-Empty", "")]]
     hsets = [[(op, k.encode(), v.encode()) for op, k, v in hs] for hs in hsets]
-    flagsets = [1 | 64, 0 | 64, 1 | 2 | 64, 1 | 4 | 64, 1 | 8 | 64, 1 | 16 | 64, 1 | 32 | 64, 1]
+    flagsets = [1 | 64, 0 | 64, 1 | 2 | 64, 1 | 4 | 64, 1 | 8 | 64, 1 | 16 | 64, 1 | 32 | 64, 1, 64 | 128, 64 | 256, 1 | 2 | 64 | 256,
+                1 | 2 | 64 | 128]
     bodies = [(b"", []), (b"hello", []), (b"hello", [b"world"]), (b"", [b"a", b"", b"bc"]), (b"0123456789", [b"x" * 17])]
     for st, m, v, fin, ka in itertools.product(statuses, "GHPC", (0, 1), (0, 1), (0, 1)):
         for fl in flagsets:
@@ -331,7 +349,7 @@ def gen_prep(ctx):
               for _ in range(rng.choice([0, 1, 2, 4]))]
         lines.append("prep %d %s %d %d %d %d %s %s %s" % (
             rng.choice(statuses + [200] * 6), rng.choice("GGGHPC"), rng.randint(0, 1), rng.randint(0, 1), rng.randint(0, 1),
-            rng.choice(flagsets + [rng.randint(0, 127)]), hdr_tok(hs), C.hx(qb), " ".join(C.hx(p) for p in ps)))
+            rng.choice(flagsets + [rng.randint(0, 511)]), hdr_tok(hs), C.hx(qb), " ".join(C.hx(p) for p in ps)))
     return lines
 
 
@@ -355,6 +373,21 @@ def dechunk_strict(b):
 
 def oracle_enc(t, out):
     if out in ("bad-op", "<crash>"):
+        return None
+    if t[0] == "cshort":
+        o = out.split(" ")
+        if len(o) != 2:
+            return None
+        flen, claimed = int(t[3]), int(t[4])
+        got = C.unhx(o[1])
+        if o[0] == "0":
+            # success reported: what was queued must be a true chunk of the size the caller believes
+            if claimed and dechunk_strict(got + b"0\r\n\r\n") != pat(int(t[2]), claimed):
+                return "http_chunk_append_file_* reported success but the chunk queued is not the %d-byte file" % claimed
+            if flen < claimed:
+                return "short read of a shrunken file not reported: the announced chunk length is false"
+        elif flen >= claimed:
+            return "http_chunk_append_file_* failed on a complete file"
         return None
     if t[0] == "s1xx":
         o = out.split(" ")
@@ -439,6 +472,8 @@ def oracle_enc(t, out):
 
 
 def classify_enc(t, out):
+    if t[0] == "cshort":
+        return "cshort:%s:%s:%s" % (t[1], out.split(" ")[0], "short" if int(t[3]) < int(t[4]) else "full")
     if t[0] == "s1xx":
         return "s1xx:%s:%d" % (t[1], min(len(out) // 40, 6))
     if t[0] == "cfile":
@@ -479,6 +514,12 @@ def gen_enc(ctx):
         for hs in [[], [("s", b"Link", b"</style.css>; rel=preload")], [("i", b"Link", b"<a>"), ("i", b"link", b"<b>"), ("s", b"X-E", b"")],
                    [("s", b"Content-Length", b"5"), ("s", b"X-Sendfile", b"/x")]]:
             lines.append("s1xx %d %s" % (st, hdr_tok(hs)))
+    # fault-injected short read: the file shrinks after it was sized (read-into-memory path of chunked responses)
+    for claimed in [1, 2, 16, 17, 255, 4096, 8193, 32767, 32768]:
+        for flen in sorted(set([0, 1, claimed // 2, claimed - 1, claimed])):
+            if flen <= claimed:
+                for api in "dr":
+                    lines.append("cshort %s %d %d %d" % (api, rng.randint(0, 250), flen, claimed))
     fsz = [0, 1, 2, 15, 16, 17, 255, 256, 4095, 4096, 32767, 32768, 32769, 65535, 65536, 65537, 100000]
     for fl in fsz:
         for ch in (0, 1):
